@@ -32,6 +32,7 @@ K_REPR = "buildcode/repr-like-name-gets-affix-on-namespace"
 K_INDEX = "buildcode/qualified-INDEX-without-affixes"
 K_DOTNS = "include/null-namespace-tag-then-nested-namespace"
 K_API_RENAME = "api/alter-affixes-fragment-namespace-rename-only-entry-names"
+K_DOTNAME = "entry-list/leading-dot-name-missorted"
 K_API_STALE = "api/alias-chain-stale-after-forward-target-added"
 
 
@@ -560,7 +561,7 @@ def api_case(rng, d, maxdepth):
                 ns = rng.choice(["M2", "M2.N2", "A"])
                 sc.append("NS\t%d\t%s" % (idx, ns))
             final[k] = ("I", l[1], (ns + "." if ns else "") + px, sx, l[4])
-    return "\n".join(sc) + "\n", [("V", 10)] + final, w.files
+    return "\n".join(sc) + "\n", [("V", 10)] + final, w.files, [("V", 10)] + root
 
 
 def deep_chain(rng, depth):
@@ -584,6 +585,7 @@ def deep_chain(rng, depth):
 
 
 WITNESS = {
+    K_DOTNAME: [("E", 1), ("FR", "a", False), ("FR", "b", False), ("FR", "c", False), ("FR", "y", False), ("FR", "..x", False)],
     K_PROT: [("P", 3), ("I", [], "", "", [("FR", "a", False)])],
     K_NS: [("I", [], "", "", [("S", "x"), ("FR", "b", False)]), ("FR", "a", False)],
     K_ALIAS: [("V", 10), ("A", "b", "c"), ("A", "c", "b"), ("A", "z", "b")],
@@ -699,9 +701,11 @@ def main():
         dirs.append(d); filesets.append(w.files)
     # trees whose root fragment is built through the API
     napi = 1200 if not chk.thorough else 8000
+    api_pre = {}
     for i in range(napi):
         d = os.path.join(root, "a%05d" % i)
-        script, t, files = api_case(rng, d, rng.choice([1, 2, 2, 3]))
+        script, t, files, t0 = api_case(rng, d, rng.choice([1, 2, 2, 3]))
+        api_pre[len(trees)] = t0
         sp = d + ".script"
         open(sp, "w").write(script)
         files = dict(files); files["<api script>"] = script
@@ -718,6 +722,22 @@ def main():
             rc1, rc2, len(IB), len(MB), len(trees), (out1[-300:] + out2[-600:])), {"kind": "harness"}, found=False)
         return chk.finish()
 
+    # an API script that fails BEFORE its gd_alter_affixes / gd_fragment_namespace call is judged against the
+    # tree it had built up to there (the inclusion with its ORIGINAL affixes), not against the final one
+    early = [i for i in sorted(api_pre) if tags[i] == "api-post" and IB[i]["status"] == "ERR"
+             and not IB[i].get("N", "").startswith(("N AFFIX", "N NS"))]
+    if early:
+        rc3, out3 = vlib.sh([drv], inp=("\n".join(ser_tree(api_pre[i]) for i in early) + "\n").encode(), timeout=3000)
+        EB = parse_blocks(out3)
+        if rc3 != 0 or len(EB) != 2 * len(early):
+            chk.violation("harness", "driver failed on the pre-operation trees", {"kind": "harness"}, found=False)
+            return chk.finish()
+        for b in EB:
+            add_data_lines(b)
+        for k, i in enumerate(early):
+            MB[2 * i], MB[2 * i + 1] = EB[2 * k], EB[2 * k + 1]
+            trees[i] = api_pre[i]
+            tags[i] = "api"
     nontriv = set()
     stat = {"OK": 0, "ERR": 0, "CRASH": 0, "UNSPEC-spec": 0, "deviations": 0}
     per_profile = {}
@@ -737,6 +757,18 @@ def main():
                          "echo '<tree>' | ocaml/C09/driver"}
         if i < 3 or (i % 500 == 7):
             chk.sample({"generator": tags[i], "tree": ser_tree(t)[:300], "impl": ci[:300]})
+        dotname = any(e.startswith("E =.") for e in ib["E"])
+        if dotname and ib["status"] == "OK" and cs != "UNSPEC":
+            noG = lambda c: "\n".join(ln for ln in c.split("\n") if not ln.startswith("G "))
+            if ib["X"] or (ci != cm and noG(ci) == noG(cm)):
+                # an entry whose name begins with '.' sits at the position of the name without the dot
+                # (_GD_FindField drops it): the bisection then misses other entries
+                chk.violation(K_DOTNAME, "in the dirfile of tree %s (entry with a leading-dot name) lookups fail: %s" % (
+                    ser_tree(t)[:200], "; ".join(ib["X"][:3]) or "gd_getdata64 values differ"),
+                    dict(replay, kind="impl-vs-spec", x=ib["X"]), found=True)
+                confirmed.add(K_DOTNAME)
+                ib = dict(ib, X=[])
+                ci = cm if noG(ci) == noG(cm) else ci
         if tags[i] == "api-post" and ib["status"] == "OK" and sb["status"] == "OK":
             # the record of the fragment that gd_alter_affixes / gd_fragment_namespace changed (Api.v)
             post = [l for l in filesets[i]["<api script>"].split("\n") if l.startswith(("AFFIX\t", "NS\t"))]
